@@ -1,4 +1,16 @@
-(* C06 property theorems.  Statements closed by `exact`, plus satisfiability examples; pinned in coq/pins/C06.txt. *)
+(* C06 property theorems.  Statements closed by `exact`, plus satisfiability examples; pinned in coq/pins/C06.txt.
+
+   Full statement aimed at (DESIGN Appendix A), kept here for reference:
+     [full 1] C06_pratt_eq_grammar : forall c, table_ok c = true -> forall fuel ts,
+       Model.parse c fuel ts = Grammar.parse_strict fuel ts.
+     [full 2] C06_print_parse_roundtrip : forall c, table_ok c = true -> forall e, exists fuel,
+       Model.parse c fuel (print_stmt (SExpr e)) = Ok (SExpr e).
+   Proved below: the operator layer of the first statement (every precedence level, every operand parser that
+   consumes input, every table satisfying table_ok), instantiated at every entry point the parser uses over the
+   model's own parse_unary.  Missing for the full first statement: the congruence lifting through the shared
+   bracket grammar (Model.Body is the same Gallina code on both sides, parametric in the operator layer) and the
+   lemma that parse_argument's re-entry after a consumed identifier equals parse_test.  The second statement
+   (printer) is not proved; it is checked by the tie on every case (model printer = Display tokens, re-parse = same tree). *)
 From Coq Require Import ZArith NArith List Bool.
 From SV Require Import Parse.Tokens Parse.Ast Parse.Model Parse.Grammar Parse.Print Parse.Cases Parse.Proofs.
 Import ListNotations.
@@ -7,7 +19,44 @@ Import ListNotations.
 Theorem C06_table_ok_extracted : exists c, ext_cfg = Some c /\ table_ok c = true.
 Proof. exact ext_cfg_some. Qed.
 
+(* Pratt = stratified grammar on the operator layer: at a binding power that enters precedence level i, the Pratt
+   loop of parser_rd.rs returns exactly what the level-i nonterminal of the reference grammar returns (same tree,
+   same remaining input, same rejection), for every operand parser P that consumes input *)
+Theorem C06_pratt_binary_partial : forall c, table_ok c = true -> forall P, consuming P ->
+  forall i m, valid_level i -> entry_ok c m i = true ->
+  forall ts, parse_expr_top c P m ts = G P i ts.
+Proof. exact pratt_eq_grammar_oplayer. Qed.
+
+(* the entry points: parse_test / parse_or_test / parse_argument's continue_infix(0) are OrTest, the operand of the
+   prefix `not` is NotTest, parse_bitor_expr's power is BitOr - over the model's own parse_unary *)
+Theorem C06_pratt_entry_points : forall c, table_ok c = true -> forall R ts,
+  let P := parse_unary c R in
+  parse_expr_top c P (c_test c) ts = g_or_test P ts /\
+  parse_expr_top c P (c_ortest c) ts = g_or_test P ts /\
+  parse_expr_top c P (c_arg c) ts = g_or_test P ts /\
+  parse_expr_top c P (c_not_rbp c) ts = g_not_test P ts /\
+  parse_expr_top c P (c_bitor c) ts = g_bitor P ts.
+Proof. exact pratt_entry_points. Qed.
+
+(* the right operand of an operator of level i is parsed as the nonterminal of level i+1 *)
+Theorem C06_pratt_right_operand : forall c, table_ok c = true -> forall P, consuming P ->
+  forall t op l r, lookup (c_tbl c) t = Some (op, l, r) ->
+  forall ts, parse_expr_top c P r ts = G P (S (ref_level op)) ts.
+Proof. exact pratt_right_operand. Qed.
+
+(* the model's parse_unary is a consuming operand parser, so the hypotheses above are satisfiable *)
+Theorem C06_parse_unary_consuming : forall c R, consuming (parse_unary c R).
+Proof. exact parse_unary_consuming. Qed.
+
 (* the one place where the faithful model and the specification's grammar differ (a finding on the implementation) *)
 Theorem C06_bare_tuple_statement_refuted :
   exists ts e, Grammar.parse (fuel_for ts) ts = Ok (SExpr e) /\ run_model ts = Err 15.
 Proof. exact bare_tuple_stmt_differs. Qed.
+
+(* a non-trivial run: `not a == b or c * -d` groups as ((not (a == b)) or (c * (-d))) in model and grammar *)
+Example C06_example_run :
+  let ts := [TNot; TIdentifier 1; TEqualEqual; TIdentifier 2; TOr; TIdentifier 3; TStar; TMinus; TIdentifier 4]%N in
+  run_model ts = Ok (SExpr (EOp (ENot (EOp (EId 1) Equal (EId 2))) Or (EOp (EId 3) Multiply (EMinus (EId 4)))))%N
+  /\ run_grammar ts = run_model ts
+  /\ run_model (run_print (SExpr (EOp (ENot (EOp (EId 1) Equal (EId 2))) Or (EOp (EId 3) Multiply (EMinus (EId 4))))))%N = run_model ts.
+Proof. vm_compute. repeat split; reflexivity. Qed.
